@@ -51,6 +51,12 @@ def main():
         v, st, desc, s = prng_case(seed, i, "quick", nt)
         print("prng", i, R.digest((json.dumps(desc, sort_keys=True), st["nodes"],
                                    sorted(st["prng_calls"].items()), len(v))))
+    from simkit.deep import deep_case
+
+    for i in range(max(5, n // 5)):
+        v, st, desc, s = deep_case(seed, i, "quick", nt)
+        print("deep", i, R.digest((json.dumps(desc, sort_keys=True), st["nodes"], st["probes"],
+                                   len(v))))
 
 
 main()
